@@ -1,31 +1,26 @@
 """C18 — interchangeable data-pipeline implementations produce the same samples.
 
-Model: coq/theories/C18/Pipelines.v (every pipeline step once, the three
-frameworks as three compositions in the order the code applies the steps);
-theorems: coq/theories/C18/Props.v.
+Model: coq/theories/C18/Pipelines.v (every pipeline step once; the three frameworks and the four composed
+legacy DataPipe pipelines as compositions in the order the code applies the steps); theorems: C18/Props.v.
 
 Tie (every run):
-  1. ORACLE (the property itself, on the implementation only): for generated
-     label sets x configurations the three frameworks are run for real —
+  1. ORACLE (the property itself, on the implementation only): for generated label sets x configurations
        Mem  custom_datasets.*Dataset (in-memory cache),
-       Npc  the same classes with np_chunks=True and a scratch chunk path,
-       Str  get_data_chunks.*_data_chunks -> litdata's own serializers (PIL /
-            tensor / int, in memory) -> streaming_datasets.*StreamingDataset with
-            the real __init__/__getitem__ (only litdata's StreamingDataset.__init__
-            and __getitem__ are stubbed: the on-disk format is not under test)
-     and their samples are compared pairwise for the same (frame, instance):
-     image/crop up to 8-bit quantisation, confidence maps, PAFs, and the
-     keypoints / centroids the targets are drawn from (float32 tolerance), in the
-     property's domain: Mem=Npc always; Mem=Str for single-instance, centroid,
-     bottom-up at any scale and centered-instance at scale 1.
-  2. CORRESPONDENCE: every real sample of every framework (also centered-instance
-     at scale != 1, where the frameworks legitimately differ) is compared with the
-     Coq model's composition for that framework (vm_compute): image size and
-     channels exactly, value range, keypoints, centroids, bbox corner, number of
-     instances, target shapes, and the targets re-generated from the model's
-     target inputs.
-  3. each legacy DataPipe block vs its functional counterpart on random examples
-     (list source), and vs the model's dp_/fn_ definitions.
+       Npc  the same classes with np_chunks=True and a scratch chunk path, plus a second object with
+            use_existing_chunks=True reading the same files,
+       Str  get_data_chunks.*_data_chunks -> litdata's own serializers (in memory) ->
+            streaming_datasets.*StreamingDataset (only litdata's StreamingDataset.__init__/__getitem__ stubbed),
+       Lit  (a few cases per run) the same with NOTHING stubbed: litdata.optimize on a scratch directory
+            (worker process, .bin chunk files) -> the real *StreamingDataset; obligation Lit == Str,
+       DP   providers.LabelsReaderDP -> pipelines.*Pipeline.make_training_pipeline (the composed legacy pipelines)
+     are compared pairwise for the same (frame, instance): image/crop up to 8-bit quantisation, confidence
+     maps, PAFs, keypoints / centroids, in the property's domain (Mem=Npc always; Mem=Str=Lit except
+     centered-instance at scale != 1; DP=Mem where Props.c18_dp_*_pipeline apply: dp_domain).
+  2. CORRESPONDENCE: every real sample of every leg (also outside the domains, also SizeMatcher raising) vs the
+     Coq model's composition (vm_compute): size, channels, value range, keypoints, centroids, bbox corner,
+     num_instances, targets re-generated from the model's target inputs, content map on ramp frames.
+  3. each legacy DataPipe block (incl. SizeMatcher, LabelsReaderDP) vs its functional counterpart on random
+     examples (list source), and vs the model's dp_/fn_ definitions.
 """
 from __future__ import annotations
 
@@ -1501,8 +1496,10 @@ def _check(run, mods, rng, thorough, scratch):
     for _, c in cases[:2]:
         run.sample(enc(c))
     run.trusted += [
-        "litdata's writer/reader are replaced by litdata's own PIL/tensor/int serializers applied in memory; "
-        "StreamingDataset.__init__/__getitem__ stubbed (the on-disk format is not under test)",
+        "for most cases litdata's writer/reader are replaced by litdata's own PIL/tensor/int serializers applied in "
+        "memory (StreamingDataset.__init__/__getitem__ stubbed); a few cases per run go through the real "
+        "litdata.optimize + on-disk chunks + StreamingDataset and must equal the stand-in (obligation)",
+        "sio.Labels(...) inside LabelsReaderDP.__init__ is replaced by the duck-typed container for duck-typed labels",
         "torchvision resize / kornia crop_and_resize / PIL conversions are not modelled beyond their geometry (size, "
         "content map); the direct framework-vs-framework image comparison is a test on generated inputs",
         "duck-typed Labels/LabeledFrame/Instance/Video objects expose what the repo reads; guarded by cases on "
@@ -1512,7 +1509,7 @@ def _check(run, mods, rng, thorough, scratch):
         "augmentation off (apply_aug=False): with augmentation the samples are random",
         "every labelled frame has at least one non-empty instance; single-instance label sets have exactly one "
         "instance per frame (get_max_instances = 1)",
-        "max_height/max_width >= every video's size, identical for all frameworks (as ModelTrainer passes them)",
+        "max_height/max_width identical for all frameworks (as ModelTrainer passes them): >= the videos, smaller, or None",
         "scales are dyadic rationals; inputs where float64 round(h*ratio) could differ from exact arithmetic are skipped",
     ]
     return run.finish()
